@@ -330,6 +330,8 @@ def c19(run):
     th = run.tier == "thorough"
     names = ["b3f", "q3n", "b3l2"] + (["b4", "q4", "q4l", "q4t", "q3", "q3l"] if th else [])
     # a token that nobody holds and nobody gives back is capacity the pool never serves again: conservation counts for C19 too
+    # fixed pools kept busy until their sample windows close with tokens held: still a counting gate (GateTrace)
+    gate_stress(run, "C19", 4 if th else 2, test="^TestPoolLongRun$", fname="pool_gate_trace.ndjson", what="pool_long_run")
     wrapper_pipeline(run, "C19", names, [], {"gate", "starved", "lostwake", "early", "conserve"}, random_n=4000 if th else 800, extra_invs=LIVE, handoff=True,
                      temporal=("WakeUp",), serve=True)
 
@@ -1109,12 +1111,12 @@ def conc_cfg(direct, ll, sl, incr="add", gauge="add"):
 GATE_CFG = "CONSTANT CheckN = %s\nINIT Init\nNEXT Next\nCONSTRAINT Mark\nINVARIANT NeverOver\nPOSTCONDITION Report\nCHECK_DEADLOCK FALSE\n"
 
 
-def gate_stress(run, prop, n, check_n=False):
+def gate_stress(run, prop, n, check_n=False, test="^TestGateStress$", fname="gate_trace.ndjson", what="stress"):
     """Free-running goroutines on real limiters; TLC searches each recorded history for a linearisation.
     check_n: the in-flight sample emitted for each acquire must moreover be the count at its linearisation point (C20);
     a history that has no linearisation even without that requirement is the gate's business (C01) and is not reported."""
-    out, _ = run.go("^TestGateStress$", env={"VERIF_N": n}, timeout=900)
-    tp = os.path.join(out, "gate_trace.ndjson")
+    out, _ = run.go(test, env={"VERIF_N": n}, timeout=900)
+    tp = os.path.join(out, fname)
     rows = vlib.read_ndjson(tp)
     stats = {"histories": n, "events": len(rows), "acquires": 0, "refusals": 0, "completions": 0, "limit_changes": 0, "samples_seen": 0}
     for x in rows:
@@ -1124,9 +1126,11 @@ def gate_stress(run, prop, n, check_n=False):
             stats["refusals"] += 1
         if x["t"] == "e" and x.get("n", -1) >= 0:
             stats["samples_seen"] += 1
-    run.extra["stress"] = stats
-    if stats["refusals"] == 0 or stats["limit_changes"] == 0 or (check_n and stats["samples_seen"] < stats["acquires"]):
+    run.extra[what] = stats
+    if what == "stress" and (stats["refusals"] == 0 or stats["limit_changes"] == 0 or (check_n and stats["samples_seen"] < stats["acquires"])):
         raise Machinery("stress histories are vacuous: %s" % stats)
+    if stats["acquires"] < 100:
+        raise Machinery("%s histories are vacuous: %s" % (what, stats))
     run.sample({"stress_history_excerpt": rows[:6]})
     remaining = rows
 
